@@ -106,15 +106,22 @@ var hC05Dups = []hC05Dup{
 	{id: "param", a: "define void @f(i32 %", mid: ", i32 %", b: ") {\n\tret void\n}\n"},
 	{id: "label", a: "define void @f() {\n", mid: ":\n\tbr label %z\n", b: ":\n\tbr label %z\nz:\n\tret void\n}\n"},
 	{id: "metadata", a: "!", mid: " = !{}\n!", b: " = !{!\"x\"}\n", dig: true},
+	// one namespace, different kinds of definition
+	{id: "param-label", a: "define void @f(i32 %", mid: ") {\n", b: ":\n\tret void\n}\n"},
+	{id: "label-inst", a: "define void @f() {\n", mid: ":\n\t%", b: " = add i32 1, 1\n\tret void\n}\n"},
+	{id: "param-inst", a: "define void @f(i32 %", mid: ") {\n\t%", b: " = add i32 1, 1\n\tret void\n}\n"},
+	{id: "inst-invoke", a: "declare i32 @g()\ndefine void @f() personality i8* null {\n\t%", mid: " = add i32 1, 1\n\t%", b: " = invoke i32 @g() to label %ok unwind label %lp\nok:\n\tret void\nlp:\n\t%l = landingpad i32 cleanup\n\tret void\n}\n"},
+	{id: "global-alias", a: "@t = global i32 0\n@", mid: " = global i32 1\n@", b: " = alias i32, i32* @t\n"},
+	{id: "func-ifunc", a: "declare void ()* @r()\ndeclare void @", mid: "()\n@", b: " = ifunc void (), void ()* ()* @r\n"},
 }
 
-var hC05DupIDs = [...]string{"C05.global.duplicate-is-error", "C05.global-func.duplicate-is-error", "C05.type.duplicate-is-error", "C05.comdat.duplicate-is-error", "C05.local.duplicate-is-error", "C05.param.duplicate-is-error", "C05.label.duplicate-is-error", "C05.metadata.duplicate-is-error"}
-var hC05DistinctIDs = [...]string{"C05.global.distinct-is-accepted", "C05.global-func.distinct-is-accepted", "C05.type.distinct-is-accepted", "C05.comdat.distinct-is-accepted", "C05.local.distinct-is-accepted", "C05.param.distinct-is-accepted", "C05.label.distinct-is-accepted", "C05.metadata.distinct-is-accepted"}
+var hC05DupIDs = [...]string{"C05.global.duplicate-is-error", "C05.global-func.duplicate-is-error", "C05.type.duplicate-is-error", "C05.comdat.duplicate-is-error", "C05.local.duplicate-is-error", "C05.param.duplicate-is-error", "C05.label.duplicate-is-error", "C05.metadata.duplicate-is-error", "C05.param-label.duplicate-is-error", "C05.label-inst.duplicate-is-error", "C05.param-inst.duplicate-is-error", "C05.inst-invoke.duplicate-is-error", "C05.global-alias.duplicate-is-error", "C05.func-ifunc.duplicate-is-error"}
+var hC05DistinctIDs = [...]string{"C05.global.distinct-is-accepted", "C05.global-func.distinct-is-accepted", "C05.type.distinct-is-accepted", "C05.comdat.distinct-is-accepted", "C05.local.distinct-is-accepted", "C05.param.distinct-is-accepted", "C05.label.distinct-is-accepted", "C05.metadata.distinct-is-accepted", "C05.param-label.distinct-is-accepted", "C05.label-inst.distinct-is-accepted", "C05.param-inst.distinct-is-accepted", "C05.inst-invoke.distinct-is-accepted", "C05.global-alias.distinct-is-accepted", "C05.func-ifunc.distinct-is-accepted"}
 
 // VfC05_Duplicate
 //
 //vf:unwind 300
-//vf:shards 8
+//vf:shards 14
 func VfC05_Duplicate() {
 	k := vfChoice("template", len(hC05Dups))
 	t := hC05Dups[k]
